@@ -272,13 +272,19 @@ fn observe(slot_id: usize, slot: &mut Slot<'_>, owned: &Owned, rs: &mut RunStats
         if v[..] != rest[..stable_len] {
             return Err(fail(p03, "flatten-content", format!("iovec #{}: flatten() differs from the stable bytes at {}", slot_id, first_diff(&v, rest))));
         }
-        let into = iov.flatten_into(vec![0x42]);
-        let v2 = match into {
-            Ok(v) => v,
-            Err(v) => v,
+        // (a destination that already holds some bytes, sometimes more than
+        // the iovec has in total)
+        let pre = 1 + (total * 7 + stable_len) % 5 + if total % 3 == 0 { total } else { 0 };
+        let into = iov.flatten_into(vec![0x42; pre]);
+        let (ok2, v2) = match into {
+            Ok(v) => (true, v),
+            Err(v) => (false, v),
         };
-        if v2.len() != 1 + stable_len || v2[0] != 0x42 {
-            return Err(fail(&["C03"], "flatten_into", format!("iovec #{}: flatten_into() did not append after the existing contents", slot_id)));
+        if ok2 == pending {
+            return Err(fail(&["C04"], "flatten_into-status", format!("iovec #{}: flatten_into(a {}-byte vector) is {} with pending = {}", slot_id, pre, if ok2 { "Ok" } else { "Err" }, pending)));
+        }
+        if v2.len() != pre + stable_len || v2[..pre].iter().any(|b| *b != 0x42) || v2[pre..] != rest[..stable_len] {
+            return Err(fail(&["C03"], "flatten_into", format!("iovec #{}: flatten_into() did not append the stable bytes after the existing contents", slot_id)));
         }
     }
     {
@@ -1097,7 +1103,8 @@ pub enum Mix {
 
 pub fn gen_history(rng: &mut Rng, n: usize, mixk: Mix, small: bool) -> Vec<Step> {
     let mut steps = Vec::with_capacity(n + 4);
-    let len = |rng: &mut Rng| gen::iovec_length(rng, small);
+    // (one length in thirty is zero: empty slices are legal arguments everywhere)
+    let len = |rng: &mut Rng| if rng.chance(1, 30) { 0 } else { gen::iovec_length(rng, small) };
     let lens = |rng: &mut Rng, small: bool| -> Vec<usize> {
         let k = rng.range(0, 4);
         (0..k).map(|_| if rng.chance(1, 5) { 0 } else { gen::iovec_length(rng, small).min(if small { 300 } else { 5000 }) }).collect()
